@@ -587,6 +587,24 @@ def m_iter_cmp(I, c, a, b):
     return Ordering(seq_cmp(I, xs, ys))
 
 
+@model('fn:once')
+def m_once(I, c, v):
+    return ListIt([v])
+
+
+@model('fn:empty')
+def m_empty(I, c):
+    return ListIt([])
+
+
+@model('Iterator::eq', 'Iterator::ne')
+def m_iter_eq(I, c, a, b):
+    xs = [zx(v) if not isinstance(v, (RStr, StringBuf)) else v for v in as_iter(I, a).drain(I)]
+    ys = [zx(v) if not isinstance(v, (RStr, StringBuf)) else v for v in as_iter(I, b).drain(I)]
+    r = len(xs) == len(ys) and seq_cmp(I, xs, ys) == 0
+    return r if c.method == 'eq' else not r
+
+
 @model('Iterator::rev')
 def m_iter_rev(I, c, it):
     it = deref_all(it)
